@@ -347,36 +347,36 @@ congruence<Number>::operator/(const congruence<Number> &o) const {
     return congruence<Number>::top();
   else {
     /*
+       Signed division truncates towards zero.
+
+       0Z+b / 0Z+b' = 0Z + (b / b')
+
        aZ+b / 0Z+b':
-          if b'|a then  (a/b')Z + b/b'
-          else          top
+          if b'|a and b'|b then (a/b')Z + b/b'   (every division is exact)
+          else                  top
+
+       If b' does not divide b the quotients of the negative and the
+       non-negative elements do not form one class: (4Z+3)/2 contains
+       3/2 = 1, 7/2 = 3 but also -1/2 = 0.
     */
     if (o.m_a == 0) {
-      if (m_a % o.m_b == 0)
+      if (m_a == 0) {
+        return congruence<Number>(m_b / o.m_b);
+      } else if (m_a % o.m_b == 0 && m_b % o.m_b == 0) {
         return congruence<Number>(m_a / o.m_b, m_b / o.m_b);
-      else
-        return congruence<Number>::top();
-    }
-
-    /*
-         0Z+b / a'Z+b':
-            if N>0   (b div N)Z + 0
-            else     0Z + 0
-
-           where N = a'((b-b') div a') + b'
-    */
-    if (m_a == 0) {
-      Number n(o.m_a * (((m_b - o.m_b) / o.m_a) + o.m_b));
-      if (n > 0) {
-        return congruence<Number>(m_b / n, Number(0));
       } else {
-        return congruence<Number>(Number(0), Number(0));
+        return congruence<Number>::top();
       }
     }
 
     /*
-      General case: no singleton
+      The divisor is not a singleton: it contains arbitrarily large
+      elements (quotient 0) and, in general, small ones. Only 0 has
+      the same quotient by all of them.
     */
+    if (is_zero()) {
+      return *this;
+    }
     return congruence<Number>::top();
   }
 }
